@@ -634,13 +634,28 @@ pub fn run(tier: &str, seed: u64) -> Report {
       .stderr(std::process::Stdio::null())
       .spawn()
       .map_err(|e| e.to_string())?;
-    // 20 s limit
+    // a child that does not return burns processor time: 20 s of its own CPU time is the limit (wall
+    // time would make the verdict depend on how busy the machine is); 15 min of wall time as a backstop
     let start = std::time::Instant::now();
+    let pid = child.id();
+    let cpu_seconds = || -> f64 {
+      std::fs::read_to_string(format!("/proc/{}/stat", pid))
+        .ok()
+        .and_then(|t| {
+          // fields after the parenthesised command name: utime and stime are the 12th and 13th
+          let rest = t.rsplit_once(") ")?.1.to_string();
+          let f: Vec<&str> = rest.split(' ').collect();
+          let ut: f64 = f.get(11)?.parse().ok()?;
+          let st: f64 = f.get(12)?.parse().ok()?;
+          Some((ut + st) / 100.0)
+        })
+        .unwrap_or(0.0)
+    };
     loop {
       match child.try_wait() {
         Ok(Some(_)) => break,
         Ok(None) => {
-          if start.elapsed().as_secs() > 20 {
+          if cpu_seconds() > 20.0 || start.elapsed().as_secs() > 900 {
             let _ = child.kill();
             return Err("timeout".into());
           }
